@@ -3,7 +3,9 @@ package store
 // Bounded stand-in for C08 (labelled: NOT a proof). Runs the REAL store (Set/Delete/Commit through the
 // public API, hence the real sparse Merkle tree with sequential and parallel commits) over randomly
 // generated histories of blocks and checks history independence of the state root: the root after a
-// history equals the root of a fresh store that receives the final key/value set in a single block.
+// history equals the root of a fresh store that receives the final key/value set in a single block. Between the
+// blocks of a history, candidate blocks are applied, their root is read and they are discarded (Reset), and empty
+// blocks are committed: none of that may change a committed root.
 // Bounds: key pool size, blocks per history, ops per block and number of histories are printed.
 
 import (
@@ -52,9 +54,34 @@ func verifApply(t *testing.T, blocks [][]verifOp) ([]byte, map[string]string) {
 		if e != nil {
 			t.Fatal(e)
 		}
+		// speculation: a candidate block is applied, its root is read, and the candidate is thrown away (what a
+		// validator does with a proposal it does not commit); sometimes an EMPTY block is committed right after.
+		// Neither may influence any committed root: the state is unchanged.
+		if verifSpec != nil && verifSpec.Intn(2) == 0 {
+			for i, n := 0, 1+verifSpec.Intn(6); i < n; i++ {
+				k := lib.JoinLenPrefix([]byte("k/"), []byte(fmt.Sprintf("key-%03d", verifSpec.Intn(220))))
+				if verifSpec.Intn(3) == 0 {
+					s.Delete(k)
+				} else {
+					s.Set(k, []byte(fmt.Sprintf("spec-%d", verifSpec.Intn(1000))))
+				}
+			}
+			if _, e := s.Root(); e != nil {
+				t.Fatal(e)
+			}
+			s.Reset()
+			if verifSpec.Intn(2) == 0 {
+				if root, e = s.Commit(); e != nil {
+					t.Fatal(e)
+				}
+			}
+		}
 	}
 	return root, final
 }
+
+// verifSpec, when set, makes verifApply interleave discarded speculative blocks and empty blocks
+var verifSpec *rand.Rand
 
 func TestVerifBoundedC08(t *testing.T) {
 	seed, _ := strconv.ParseInt(os.Getenv("VERIF_SEED"), 10, 64)
@@ -96,7 +123,9 @@ func TestVerifBoundedC08(t *testing.T) {
 			}
 			blocks = append(blocks, blk)
 		}
+		verifSpec = rand.New(rand.NewSource(seed*1000 + int64(h)))
 		root, final := verifApply(t, blocks)
+		verifSpec = nil
 		// reference: the final state in ONE block on a fresh store (sorted for reproducibility)
 		var keys []string
 		for k := range final {
